@@ -963,6 +963,13 @@ func (prnRoundtripEngine) Gen(r *Rand, tier string) [][]string {
 			}
 		}
 	}
+	litTrivia := []string{" // c\n", "\n\n"}
+	if tier == "thorough" {
+		litTrivia = append(litTrivia, prnLitTrivia...)
+	}
+	for _, src := range prnLitSources(r, tier, litTrivia) {
+		addRt(src)
+	}
 	nrt := 1000
 	if tier == "thorough" {
 		nrt = 40000
@@ -1441,6 +1448,27 @@ func prnPreset(name string) (printer.Options, bool) {
 
 // prnCompile compiles src with the real compiler and returns the descriptor without source info.
 func prnCompile(src string) (fd *descriptorpb.FileDescriptorProto, errMsg string) {
+	if c, ok := prnCompileCache[src]; ok {
+		return c.fd, c.err
+	}
+	fd, errMsg = prnCompileReal(src)
+	if len(prnCompileCache) > 200000 {
+		prnCompileCache = map[string]prnCompiled{}
+	}
+	prnCompileCache[src] = prnCompiled{fd, errMsg}
+	return fd, errMsg
+}
+
+type prnCompiled struct {
+	fd  *descriptorpb.FileDescriptorProto
+	err string
+}
+
+// prnCompileCache: Gen compiles every candidate, Exec compiles it again once per preset; the
+// compiler is deterministic and the descriptors are only read.
+var prnCompileCache = map[string]prnCompiled{}
+
+func prnCompileReal(src string) (fd *descriptorpb.FileDescriptorProto, errMsg string) {
 	defer func() {
 		if r := recover(); r != nil {
 			fd, errMsg = nil, "panic "+fmt.Sprint(r)
@@ -1549,6 +1577,33 @@ func prnSortStrings(x []string) {
 	}
 }
 
+// prnSlashThenComment: a `/` token (the separator of an Any type URL) is followed by a comment
+// before the next non-skippable token. The formatter glues the comment to the slash (`com/` +
+// `// c` -> `com/// c`), which turns the slash into part of the comment.
+func prnSlashThenComment(file *ast.File) bool {
+	found := false
+	var walk func(c *token.Cursor)
+	walk = func(c *token.Cursor) {
+		afterSlash := false
+		for t := c.NextSkippable(); !t.IsZero(); t = c.NextSkippable() {
+			switch {
+			case t.Kind() == token.Comment:
+				if afterSlash {
+					found = true
+				}
+			case t.Kind().IsSkippable():
+			default:
+				afterSlash = t.IsLeaf() && t.Text() == "/"
+				if !t.IsLeaf() {
+					walk(t.Children())
+				}
+			}
+		}
+	}
+	walk(file.Stream().Cursor())
+	return found
+}
+
 // prnSpacedExtName: some `( name )` that is followed by `=` or `.` (an extension name in an option
 // path) has a space or comment directly inside the parentheses. ast.Path.Canonicalized() is ""
 // for such a path, which gives the option the sort key "1".
@@ -1655,6 +1710,11 @@ func (prnFormatEngine) Exec(op string) string {
 	default:
 		flags = append(flags, "cm=none")
 	}
+	if prnSlashThenComment(file) {
+		flags = append(flags, "sl=1")
+	} else {
+		flags = append(flags, "sl=0")
+	}
 	if prnSpacedExtName(file) {
 		flags = append(flags, "xp=1")
 	} else {
@@ -1720,6 +1780,14 @@ func (prnFormatEngine) Gen(r *Rand, tier string) [][]string {
 	for i := 0; i < n; i++ {
 		toks := prnGenFile(r)
 		add(prnPerturb(r, toks, Pick(r, []int{0, 1, 2, 4, -1})))
+	}
+	// option literal shapes x a comment / blank line at every token boundary of the literal
+	fmtLitTrivia := prnLitTrivia[:4]
+	if tier == "thorough" {
+		fmtLitTrivia = append(append([]string(nil), prnLitTrivia...), "/*c*/", "//c\n")
+	}
+	for _, src := range prnLitSources(r, tier, fmtLitTrivia) {
+		add(src)
 	}
 	// large headers and bodies with repeated custom options set several times (stability of
 	// every sort the formatter performs); extension names spelled canonically / with trivia
